@@ -8,7 +8,7 @@ from .. import core, tlc
 
 BASE = dict(Kinds={"insert", "insert_cols", "ctas", "update", "merge"}, Schemas={"none", "s"}, Bare={"a", "b"}, TAliases={"x", "b"}, SAliases={"x", "y"},
             ColNames={"c", "d"}, MaxRels=2, MaxItems=2, MaxRefs=1, Known=set(), Emit=False, WithUnion=False, WithMeta=False, WithLiteral=False,
-            WithForeign=False)
+            WithForeign=False, WithLca=False)
 
 
 def cfg(chk, name, invariants=("MachineFlowExact", "EmitCase"), **kw):
